@@ -1216,6 +1216,37 @@ def shapes_of(src: str):
                 out.add("fn-lcd-animate")
             if isinstance(n, ast.Call) and isinstance(n.func, ast.Name) and n.func.id in order and order[n.func.id] > order[f.name]:
                 out.add("fn-forward-call")
+    # a tuple assignment at top level that introduces SOME new names (not all): the new ones become locals of setup()
+    assigned = set()
+    for st in tree.body:
+        if isinstance(st, ast.While):
+            break
+        if isinstance(st, ast.Assign) and len(st.targets) == 1 and isinstance(st.targets[0], ast.Tuple):
+            names = [t.id for t in st.targets[0].elts if isinstance(t, ast.Name)]
+            new = [n for n in names if n not in assigned]
+            if new and len(new) != len(names):
+                out.add("tuple-new-name-local-to-setup")
+        for n in ast.walk(st):
+            if isinstance(n, ast.Name) and isinstance(n.ctx, ast.Store):
+                assigned.add(n.id)
+    # a for-loop variable mentioned after its loop (C++: declared by the for header only)
+    fors = [n for n in ast.walk(tree) if isinstance(n, ast.For) and isinstance(n.target, ast.Name)]
+    plain = {}
+    for n in ast.walk(tree):
+        if isinstance(n, (ast.Assign, ast.AnnAssign)):
+            tg = n.targets if isinstance(n, ast.Assign) else [n.target]
+            for t in tg:
+                for m in ast.walk(t):
+                    if isinstance(m, ast.Name):
+                        plain.setdefault(m.id, []).append(n.lineno)
+    for f in fors:
+        v = f.target.id
+        if any(l < f.lineno for l in plain.get(v, [])):
+            continue
+        spans = [(g.lineno, g.end_lineno) for g in fors if g.target.id == v]
+        for n in ast.walk(tree):
+            if isinstance(n, ast.Name) and n.id == v and n.lineno > f.end_lineno and not any(a <= n.lineno <= b for a, b in spans):
+                out.add("for-var-after-loop")
     for n in ast.walk(tree):
         if isinstance(n, ast.Constant) and isinstance(n.value, str) and not n.value.isprintable():
             out.add("non-printable-literal")
